@@ -8,13 +8,14 @@ Driver for the C12 correspondence.  One request per line:
 * `initfs`: `-` or `|`-separated `path=content=mode` (mode decimal)
 * `runs`: `;`-separated `<allow 0|1>:<pps>:<writes>`
   * `pps`: `-` or `,`-separated `M<mode>` (SetFileMode) / `E<table>` (external program; `table` is `-` or
-    `+`-separated `in>out` / `in>!` (= exits non-zero); a content not in the table fails)
+    `+`-separated `in>out` (edited in place) / `in>out~mode` (the program left that mode: temp file + rename,
+    or chmod) / `in>!` (= exits non-zero); a content not in the table fails)
   * `writes`: `-` or `,`-separated `path=content=kind`, kind `R` (rendered), `X` (template raises after
     writing `content`), `C<mode>` (`shutil.copy` from a resource with that mode)
 
 Answer: per run, `;`-separated, `<status>#<ops>#<fs>`:
 * status `ok` | `conflict@p` | `eacces@p` | `render@p` | `pp@p@i`
-* ops `-` or `,`-separated `chmod@p@mode` `mkdirs@p` `open@p` `denied@p` `exec@p@i`
+* ops `-` or `,`-separated `chmod@p@mode` `mkdirs@p` `open@p` `denied@p` `exec@p@i` `exec@p@i@mode`
 * fs  `-` or `|`-separated `path=content=mode` over all paths named in the request, sorted.
 -/
 open NunavutVerif NunavutVerif.Overwrite NunavutVerif.Proto
@@ -27,10 +28,15 @@ def parseFile (s : String) : Option (Path × File) :=
   | [p, c, m] => m.toNat?.map fun m => (p, ⟨c, m⟩)
   | _ => none
 
-def parseTable (s : String) : Option (List (Content × Option Content)) :=
+def parseTable (s : String) : Option (List (Content × Option (Content × Option Nat))) :=
   (parseList s '+').mapM fun t =>
     match splitOnChar t '>' with
-    | [a, b] => some (a, if b = "!" then none else some b)
+    | [a, b] =>
+      if b = "!" then some (a, none) else
+      match splitOnChar b '~' with
+      | [c] => some (a, some (c, none))
+      | [c, m] => m.toNat?.map fun m => (a, some (c, some m))
+      | _ => none
     | _ => none
 
 def parsePP (s : String) : Option FilePP :=
@@ -75,7 +81,8 @@ def showOp : Op → String
   | .mkdirs p => s!"mkdirs@{p}"
   | .openW p => s!"open@{p}"
   | .denied p => s!"denied@{p}"
-  | .exec p i => s!"exec@{p}@{i}"
+  | .exec p i none => s!"exec@{p}@{i}"
+  | .exec p i (some m) => s!"exec@{p}@{i}@{m}"
 
 def joinOr (sep : String) (xs : List String) : String :=
   if xs.isEmpty then "-" else sep.intercalate xs
